@@ -21,7 +21,8 @@ TICKS = (1e-6, 1e-5, 1e-4, 1e-3, 1e-2)
 
 def gen_scenario(rng, *, family='well', cyclic=False, init_env=False,
                  max_tasks=9, init_statuses=('DONE', 'DONE', 'FAILED',
-                                             'SKIPPED')):
+                                             'SKIPPED'),
+                 calls=1, start_fault=False):
     '''Draw one scheduler scenario.
 
     family: 'well' (ok/raise/FAILED), 'malformed' (adds malformed returns),
@@ -91,6 +92,14 @@ def gen_scenario(rng, *, family='well', cyclic=False, init_env=False,
             make_group(rng, scn)
         else:
             scn['graph_api'] = 'add'
+    if calls > 1:
+        # schedule() is called again on the same Scheduler (same backend
+        # object): with the environment the first call returned, or afresh
+        scn['calls'] = calls
+        scn['second_env'] = rng.choice(('returned', 'fresh'))
+    if start_fault:
+        # the k-th worker thread cannot be started
+        scn['fail_thread_start'] = rng.randrange(1, scn['workers'] + 1)
     if cyclic and ntask >= 1:
         # add one or two back edges (self loops included)
         for _ in range(rng.choice((1, 1, 2))):
@@ -474,6 +483,7 @@ def run_scenario(scn, chooser, *, max_steps=200000):
     lf = load.line_files(mods) if scn.get('linemode') else None
     sim = core.Sim(chooser, tick=scn['tick'], max_steps=max_steps,
                    line_files=lf, keep_trace=False)
+    sim.fail_thread_start = scn.get('fail_thread_start')
     holder = {}
 
     def main():
@@ -486,7 +496,16 @@ def run_scenario(scn, chooser, *, max_steps=200000):
         sched = mods['scheduler'].Scheduler(hard_graph=hard, soft_graph=soft,
                                             backend=backend)
         sim.mark('schedule-call')
-        return sched.schedule(env=env, config=mods['config'].Config({}))
+        config = mods['config'].Config({})
+        got = sched.schedule(env=env, config=config)
+        for _ in range(scn.get('calls', 1) - 1):
+            holder['first_returned_env'] = got is env
+            if scn.get('second_env') == 'fresh':
+                env = initial_env(scn, mods)
+                holder['env'] = env
+            sim.mark('schedule-call')
+            got = sched.schedule(env=env, config=config)
+        return got
 
     outcome = sim.run(main)
     res = RunResult()
@@ -518,11 +537,15 @@ def run_scenario(scn, chooser, *, max_steps=200000):
     res.queue_state = None
     backend = holder.get('backend')
     que = getattr(backend, 'queue', None)
+    res.queue_unfinished = None
     if que is not None and hasattr(que, 'queue'):
         try:
             res.queue_state = len(que.queue)
         except TypeError:
             res.queue_state = None
+        unfinished = getattr(que, 'unfinished_tasks', None)
+        if isinstance(unfinished, int):
+            res.queue_unfinished = unfinished
     return res
 
 
@@ -650,6 +673,12 @@ def oracle_c03(scn, res):
                 res.queue_state != 0:
             viol.append(('queue-not-empty', 'queue-not-empty',
                          {'queue': res.queue_state}))
+        elif res.queue_unfinished:
+            # items that were taken but never marked as done: the next
+            # queue.join() on this backend would wait for ever
+            viol.append(('queue-not-empty', 'queue-has-unfinished-items',
+                         {'unfinished_tasks': res.queue_unfinished,
+                          'main_exc': repr(res.main_exc)[:100]}))
     return viol
 
 
@@ -714,6 +743,8 @@ def shrink_candidates(scn):
     if scn['workers'] > 1:
         new = copy.deepcopy(scn)
         new['workers'] = scn['workers'] - 1
+        if new.get('fail_thread_start', 0) > new['workers']:
+            new['fail_thread_start'] = new['workers']
         yield new
     if scn.get('linemode'):
         new = copy.deepcopy(scn)
@@ -740,6 +771,18 @@ def shrink_candidates(scn):
         new = copy.deepcopy(scn)
         new['tick'] = 1e-4
         yield new
+    if scn.get('calls', 1) > 1:
+        new = copy.deepcopy(scn)
+        new['calls'] = 1
+        yield new
+    if scn.get('fail_thread_start'):
+        new = copy.deepcopy(scn)
+        del new['fail_thread_start']
+        yield new
+        if scn['fail_thread_start'] > 1:
+            new = copy.deepcopy(scn)
+            new['fail_thread_start'] -= 1
+            yield new
     if scn.get('graph_api', 'add') != 'add':
         new = _flat(copy.deepcopy(scn))
         new['graph_api'] = 'add'
@@ -768,4 +811,8 @@ def sched_facts(scn, res):
         facts['scenarios-cyclic'] = 1
     facts['workers:%d' % scn['workers']] = 1
     facts['graphs-built-via:%s' % scn.get('graph_api', 'add')] = 1
+    if scn.get('calls', 1) > 1:
+        facts['scenarios-scheduling-twice-on-one-backend'] = 1
+    if scn.get('fail_thread_start'):
+        facts['fault-configured:thread-start-fails'] = 1
     return facts
